@@ -138,6 +138,10 @@ TrReplyHandler ==
            mi == MethodIx(Pr, E.name)
        IN /\ Chk("C07", "unknown_id_runs_no_handler", l, known)
           /\ Chk("C07", "the_method_declared_for_this_handler_and_outcome_runs", l, r.kind = "method" /\ r.m = mi)
+          \* (C09: data the success method cannot be given fails the reply -- no method of the contract runs on it, not the success
+          \*  method and not another one of the same handler name)
+          /\ Chk("C09", "no_method_runs_on_a_reply_whose_data_cannot_be_extracted", l,
+                 (known /\ r.kind = "method" /\ r.second = "data") => \E x \in Extract(DataMode(Pr, rep.h), rep.class) : HandlerRuns(x))
           /\ IF mi # 0
              THEN LET m == Pr.methods[mi] IN
                   /\ Chk("C07", "context_carries_gas_and_for_success_events", l, CtxReplyOk(m, E, fx.reply))
